@@ -35,7 +35,7 @@ Init == /\ ref = CallDGI(InitSolver, RefTrials) /\ a = InitSolver /\ memo = {} /
 ---------------------------------------------------------------------------
 (* phase 1: the reference makes RefTrials single iterations *)
 RefBegin == /\ ref.pc = "dgi" /\ ref.left > 0
-            /\ ref' = IF ref.first THEN BeginFirst(ref) ELSE With(Recalced(ref), LAMBDA s1 : BeginIter(s1, Pick(s1)))
+            /\ ref' = IF ref.first THEN BeginFirst(ref) ELSE With(Refilled(Recalced(ref)), LAMBDA s1 : BeginIter(s1, Pick(s1)))
             /\ UNCHANGED <<a, memo, calls, stopAt, dgiBefore>>
 RefEval  == /\ ref.pc = "eval"
             /\ \E z \in Vals : ref' = Eval(ref, z) /\ memo' = memo \cup {<<ref.nx, z>>}
@@ -53,7 +53,7 @@ SolveLoop  == /\ a.pc = "solve" /\ ~Stop(a) /\ a.trials < RefTrials
               /\ a' = SolveIterate(a) /\ UNCHANGED <<ref, memo, calls, stopAt, dgiBefore>>
 SolveStop  == /\ a.pc = "solve" /\ Stop(a) /\ a' = SolveEnd(a) /\ UNCHANGED <<ref, memo, calls, stopAt, dgiBefore>>
 Begin      == /\ a.pc = "dgi" /\ a.left > 0
-              /\ a' = IF a.first THEN BeginFirst(a) ELSE With(Recalced(a), LAMBDA s1 : BeginIter(s1, Pick(s1)))
+              /\ a' = IF a.first THEN BeginFirst(a) ELSE With(Refilled(Recalced(a)), LAMBDA s1 : BeginIter(s1, Pick(s1)))
               /\ UNCHANGED <<ref, memo, calls, stopAt, dgiBefore>>
 Answer     == /\ a.pc = "eval" /\ \E p \in memo : p[1] = a.nx
               /\ \E p \in memo : /\ p[1] = a.nx
